@@ -660,7 +660,8 @@ class SavableFuture(futures.Future, Savable):
 
         if state == asyncio.futures._FINISHED:  # type: ignore
             obj = cls(loop=loop)
-            result = saved_state['_result']
+            # The result is a member like any other: it may have been saved as a nested savable or a method
+            result = obj._get_value(saved_state, '_result', load_context)
 
             try:
                 exception = saved_state['exception']
